@@ -230,9 +230,16 @@ pub fn salts(ctx: &Ctx, rep: &mut Report) {
         if let (Some(k5), Some(k10)) = (kw.first(), kw2.first()) {
             let windows: [(u64, u64); 14] = [(0, 1), (0, 2), (0, 4), (0, 5), (0, 8), (0, 16), (0, 24), (0, 32), (8, 40), (20, 40), (32, 40), (36, 68), (40, 72), (3, 35)];
             for (wi, &(lo, hi)) in windows.iter().enumerate() {
-                for r_ in 0..ctx.sz(2, 12) {
+                for r_ in 0..ctx.sz(6, 24) {
                     let shared_seed = ctx.seed.wrapping_mul(1000) + (wi * 100 + r_) as u64;
-                    let strat = crate::gen::Strategy::SharedWindow { lo, hi, shared_seed };
+                    // the shared positions hold random bytes, or all 0x00, or all 0xff (a
+                    // generator "health test" that looks at part of the output must not end up
+                    // replacing a live draw)
+                    let strat = match r_ % 3 {
+                        0 => crate::gen::Strategy::SharedWindow { lo, hi, shared_seed },
+                        1 => crate::gen::Strategy::ConstWindow { lo, hi, byte: 0x00 },
+                        _ => crate::gen::Strategy::ConstWindow { lo, hi, byte: 0xff },
+                    };
                     let msg = b"window".to_vec();
                     let mut salts: Vec<Vec<u8>> = vec![];
                     for side in 0..2 {
